@@ -76,7 +76,13 @@ func script(logPath string, b *Beh) string {
 	}
 	switch b.Code {
 	case 1:
-		switch b.Variant % 3 {
+		switch b.Variant % 5 {
+		case 3:
+			// cannot even be started: the interpreter named by the shebang does not exist (ENOENT)
+			return "#!/nonexistent/verif-interpreter\nexit 0\n"
+		case 4:
+			// cannot be started: an executable file that is neither a script nor a binary (ENOEXEC)
+			return "\x7fEL\x00\x01not really an executable\n"
 		case 0:
 			return s + "exit 1\n"
 		case 1:
@@ -197,6 +203,17 @@ func Run(in Input) Observation {
 		}
 	}
 	io.Names = append(io.Names, hm.GetHookNames()...)
+	// a hook that cannot be started cannot write the log line: it counts as asked when Init
+	// reports its --config run as failed
+	if ierr != nil {
+		if m := quoted.FindStringSubmatch(ierr.Error()); m != nil {
+			for _, b := range in.Beh {
+				if b.Code == 1 && b.Variant%5 >= 3 && strings.HasSuffix(m[1], "/"+b.Path) {
+					io.Asked = append(io.Asked, sym(m[1]))
+				}
+			}
+		}
+	}
 	if ierr != nil {
 		msg := ierr.Error()
 		io.Error = strings.ReplaceAll(msg, parent, symParent)
@@ -429,6 +446,9 @@ func Corpus() []Input {
 		tr("lib", f("hook.sh", 0o755)),
 		tr(".h", d("a", f("x", 0o755))),
 		withInit(tr("lib", f("hook.sh", 0o755), d("lib", f("not-a-hook", 0o755)))),
+		// a hook whose --config run cannot even be started (missing interpreter, not an executable format)
+		withInit(tr("hooks", f("10-good", 0o755), d("nested", f("20-broken", 0o755), f("30-good", 0o755))), Beh{Path: "nested/20-broken", Code: 1, Variant: 3}),
+		withInit(tr("hooks", f("a", 0o755), f("b", 0o755)), Beh{Path: "a", Code: 1, Variant: 4}),
 		// walk order differs from the lexical order of the paths: a/b is visited before a.sh
 		withInit(tr("hooks", d("a", f("b", 0o755)), f("a.sh", 0o755), f("a-b", 0o755))),
 		// the conditions of the statement one by one
